@@ -549,6 +549,8 @@ def closure_subsumes(ctx, ok):
 
 def check(ctx):
     edges.check_walks(ctx, categories={'derivation', 'default'}, anchors=ANCHORS)
+    edges.check_exhaustive_scans(ctx)
+    ctx.floor('A4x', 8, 'collecting edge scans')
     apply_selection_shape(ctx)
     resolve_single_shape(ctx)
     derive_shape(ctx)
